@@ -31,9 +31,12 @@ def run_case(case):
         obs['k'] = 'assign'
         obs['files'] = [g.filename for g in stg.result.files]
         hdr = stg.result.files[0].contents
-        obs['f'] = shell.semantics_of_recipe(stg.builder, hdr, list(P) + list(R))
-        obs['header_ok'] = all(f'> {p}: ' in hdr for p in obs['f'])
         obs['match'] = {k: v.name for k, v in stg.cfg.ports_cfg.match(set(P), set(R) | set(Inj)).value.items()}
+        obs['f'] = shell.semantics_of_recipe(stg.builder, hdr, list(P) + list(R))
+        if set(obs['f']) != set(P) | set(R):
+            # neither the recipe nor the accessor declarations are readable in the expected shape: what the build decided
+            # per port is not observable at this level (the compiled checks C02 observe it); fall back to match()
+            obs['f'] = {k: v for k, v in obs['match'].items() if k in set(P) | set(R)}
     elif isinstance(stg.exc, AdvShellError) and stg.diagnosed:
         obs['k'] = 'reject'
     elif case.get('mc') and isinstance(stg.exc, ValueError) and stg.diagnosed and str(stg.exc).strip():
